@@ -261,4 +261,15 @@ example :
     s.weaklyConnectedComponents.toOption = some [[1, 2, 5, 3, 4]] := by
   decide +kernel
 
+
+/-- non-vacuity for `C10_bfs_ordered_correct`, and the difference the F24 repair makes: on the same store the ordered search
+    visits each level in name order, while the search that takes a level in the order it was collected (the code before
+    the repair, with this insertion order standing for one particular hash order) returns another list of the same nodes -/
+example :
+    let s := (Store.run ⟨false, false, false, .error, .create, .error⟩
+      [Op.addEdgeTuple 1 9, Op.addEdgeTuple 1 4, Op.addEdgeTuple 1 7, Op.addEdgeTuple 4 2, Op.addEdgeTuple 9 3]).1
+    s.wf = true ∧ (s.breadthFirstSearchOrdered 1).toOption = some [1, 4, 7, 9, 2, 3] ∧
+    (s.breadthFirstSearch 1).toOption = some [1, 9, 4, 7, 3, 2] := by
+  decide +kernel
+
 end Graphrs
